@@ -616,20 +616,23 @@ func (r *TypeClassSummonContext) lookupTypeClassInstanceTypePkg(ctx CurrentConte
 			ti := metafp.GetTypeInfo(obj.Type())
 			rhsType := ti.ResultType()
 			if rhsType.IsInstanceOf(ctx.tc.TypeClass) {
+				// unify the instance with the requested type: fills ParamMapping / UsedParam and
+				// instantiates the instance parameters ( one per type parameter the function really takes )
+				checked := option.FlatMap(metafp.AsTypeClassInstance(req.TypeClass, obj), func(i metafp.TypeClassInstance) fp.Option[metafp.TypeClassInstance] {
+					return i.Check(f)
+				})
+				if checked.IsEmpty() {
+					return option.None[lookupTarget]()
+				}
 				ins := DefinedInstance{
 					instanceOf: f,
 					pk:         f.Pkg,
 					name:       name,
-					instance:   metafp.AsTypeClassInstance(req.TypeClass, obj).Get(),
+					instance:   checked.Get(),
 					local:      false,
 
 					// 함수의 아규먼트는 Eq 가 포함 되어 있음.
-					required: seq.Map(f.TypeArgs, func(v metafp.TypeInfo) metafp.RequiredInstance {
-						return metafp.RequiredInstance{
-							TypeClass: req.TypeClass,
-							Type:      v,
-						}
-					})}
+					required: checked.Get().RequiredInstance}
 
 				ret := lookupTarget{
 					target: either.Right[NotDefinedInstance](either.Right[SummonExprInstance](either.Right[ArgumentInstance](ins))),
